@@ -166,10 +166,12 @@ func c10Value(small bool) float64 {
 	return v
 }
 
-// VerifC10Func: params fun, maxn ("x" per allowed value), small ("1" = small-integer values).
+// VerifC10Func: params fun, maxn ("x" per allowed value), small ("1" = small-integer values),
+// extra ("1" = also the solver-heavy characterisations of stdev and percentiles).
 func VerifC10Func() {
 	fun := verifParam("fun")
 	small := verifParam("small") == "1"
+	extra := verifParam("extra") == "1"
 	n := 1 + verifChoice("n", len(verifParam("maxn")))
 	vals := make([]float64, n)
 	tss := make([]uint32, n)
@@ -258,7 +260,7 @@ func VerifC10Func() {
 	case "last":
 		verifAssert(verifFloatSame(res[0].val, vals[n-1]), "last-is-latest-arrival")
 	case "stdev":
-		if small { // sqrt/div queries on full-range floats do not finish; small-integer values only
+		if extra { // sqrt/div queries: heavy
 			if n == 1 {
 				verifAssert(res[0].val == 0, "stdev-of-one-value-is-zero")
 			}
@@ -291,7 +293,7 @@ func VerifC10Func() {
 			if i == len(byName)-1 {
 				verifAssert(geAll, "p99-is-maximum-for-n<=3")
 			}
-			if i > 0 && small { // interpolation (fp.mul) queries on full-range floats do not finish
+			if i > 0 && extra { // interpolation (fp.mul) queries: heavy
 				verifAssert(byName[i] >= byName[i-1], "percentiles-monotone")
 			}
 		}
